@@ -15,6 +15,14 @@ a target box placed so that the kept cells touch every subset of the four raster
 everything kept; exclusion lists as list / tuple / the default `(nan,)`, ints or floats, with and
 without NaN; zone-id lists for crop (values raster of the same and of a different shape); layouts C / F;
 exhaustive: every raster over {nan,0,1} up to 2x3 (thorough: 3x3) x every exclusion set.
+Edge stream (`gen_edge`, value families of harness/edge_values.py): every raster dtype (float32/64,
+int8..uint64), listed values = cell values of the raster ("anchors": small ids, the dtype limits, ids >= 1e5,
+2^24, 2^31, 2^53, fractions, tiny / huge floats) plus entries the dtype cannot hold (NaN, +-inf, negative for
+unsigned, beyond the limits, fractional) plus *aliases* of unlisted cell values (entries a cast to the raster
+dtype would map onto a cell value); the other cells are *decoys*: neighbours of the listed values that are
+different numbers (nextafter in float32 / float64, relative 1e-5..1e-9, absolute 1e-8..1e-12, +-1 on integers,
+-0.0 next to 0.0 is the SAME number) and the cast images of the foreign entries.  The oracle compares the
+stored values with the listed values as exact numbers (Fractions; NaN matches a listed NaN for trim only).
 """
 import itertools
 import math
@@ -23,7 +31,8 @@ from fractions import Fraction
 import numpy as np
 import xarray as xr
 
-from common import Driver, tok, untok
+import edge_values as ev
+from common import Driver, tok
 
 PROP = "C18"
 KEY_D5 = "D5:trim-nan-never-matches"
@@ -32,8 +41,9 @@ KEY_D18A = "D16:nothing-kept-1x1-not-empty"
 
 # ---------------------------------------------------------------- rasters
 def arr(rows, dtype, layout="C"):
-    a = np.array([[untok(t) for t in row] for row in rows], dtype=np.float64).astype(dtype)
-    return np.asfortranarray(a) if layout == "F" else np.ascontiguousarray(a)
+    """the raster holding exactly the numbers named by the tokens (no detour through float64)"""
+    a = ev.array(rows, dtype)
+    return np.asfortranarray(a) if layout == "F" else a
 
 
 def coords(h, w, style):
@@ -55,9 +65,8 @@ ATTRS = {"res": (1, 1), "crs": "EPSG:4326", "nodata": -1}
 
 def ex_arg(case):
     """the `values` / `zones_ids` argument as the caller would pass it"""
-    vals = [untok(t) for t in case["ex"]]
-    if case["ex_num"] == "int":
-        vals = [int(v) for v in vals]
+    vals = [ev.vuntok(t) for t in case["ex"]]
+    vals = [int(v) for v in vals] if case["ex_num"] == "int" else [float(v) for v in vals]
     return tuple(vals) if case["ex_form"] == "tuple" else list(vals)
 
 
@@ -86,6 +95,10 @@ def call(case):
 
 def ntok(x):
     """exact token in the driver's output syntax (nan / inf / -inf / n / n/d)"""
+    if isinstance(x, np.generic):
+        x = x.item()
+    if isinstance(x, int):
+        return str(x)
     x = float(x)
     if x != x:
         return "nan"
@@ -117,7 +130,7 @@ def request(case):
         a = arr(case["data"], case["dtype"])
         h, w = a.shape
         ys, xs = coords(h, w, case["coords"])
-        ex = ["nan"] if case["ex_form"] == "default" else [tok(untok(t)) for t in case["ex"]]
+        ex = ["nan"] if case["ex_form"] == "default" else [ev.model_tok(t) for t in case["ex"]]
         return (f"trim data={h}x{w}:" + ",".join(tok(x) for x in a.ravel().tolist()) + " ex=" + ",".join(ex)
                 + " ys=" + ",".join(tok(y) for y in ys) + " xs=" + ",".join(tok(x) for x in xs)
                 + f" attrs={attrs_tok()} name={name}")
@@ -126,7 +139,7 @@ def request(case):
     ys, xs = coords(v.shape[0], v.shape[1], case["coords"])
     return (f"crop zones={z.shape[0]}x{z.shape[1]}:" + ",".join(tok(x) for x in z.ravel().tolist())
             + f" values={v.shape[0]}x{v.shape[1]}:" + ",".join(tok(x) for x in v.ravel().tolist())
-            + " ids=" + ",".join(tok(untok(t)) for t in case["ex"])
+            + " ids=" + ",".join(ev.model_tok(t) for t in case["ex"])
             + " ys=" + ",".join(tok(y) for y in ys) + " xs=" + ",".join(tok(x) for x in xs)
             + f" attrs={attrs_tok()} name={name}")
 
@@ -134,15 +147,14 @@ def request(case):
 # ---------------------------------------------------------------- oracle
 def hits(case, drop_nan=False):
     """boolean mask of the kept (trim) / selected (crop) cells, straight from the property statement"""
-    a = arr(case["data"], case["dtype"]).astype(np.float64)
-    listed = [float("nan")] if case["ex_form"] == "default" else [untok(t) for t in case["ex"]]
+    a = arr(case["data"], case["dtype"])
+    listed = {"nan"} if case["ex_form"] == "default" else {ev.exact(ev.vuntok(t)) for t in case["ex"]}
+    nan_listed = "nan" in listed and case["fn"] == "trim" and not drop_nan   # "NaN counts as excluded when listed"
+    listed.discard("nan")
     m = np.zeros(a.shape, dtype=bool)
-    for e in listed:
-        if e != e:
-            if case["fn"] == "trim" and not drop_nan:
-                m |= np.isnan(a)          # "NaN counts as excluded when listed"
-        else:
-            m |= (a == e)
+    for idx in np.ndindex(a.shape):
+        c = ev.exact(a[idx])              # the stored number, exactly; equality of numbers, never a tolerance
+        m[idx] = nan_listed if c == "nan" else c in listed
     return ~m if case["fn"] == "trim" else m
 
 
@@ -156,8 +168,8 @@ def expected(case, src, mask):
 def same(out, exp, name):
     if out.shape != exp.shape:
         return f"window shape {out.shape}, minimal window is {exp.shape}"
-    a, b = np.asarray(out.values, dtype=np.float64), np.asarray(exp.values, dtype=np.float64)
-    if not (np.where(np.isnan(a), np.isnan(b), a == b)).all():
+    a, b = np.asarray(out.values).ravel().tolist(), np.asarray(exp.values).ravel().tolist()
+    if not all((x != x and y != y) or x == y for x, y in zip(a, b)):
         return "window cells differ from the original at the same positions"
     if out.values.dtype != exp.values.dtype:
         return f"dtype {out.values.dtype} != {exp.values.dtype}"
@@ -302,6 +314,131 @@ def gen_crop(rng):
     return case, dict(mode=mode, touched=touched)
 
 
+# ---------------------------------------------------------------- edge values (harness/edge_values.py)
+def _uniq(vals):
+    out, seen = [], set()
+    for v in vals:
+        k = (ev.exact(v), isinstance(v, float) and v == 0 and math.copysign(1.0, v) < 0)
+        if k not in seen:
+            seen.add(k)
+            out.append(v)
+    return out
+
+
+def gen_edge(rng, fn, quick_sigs=True):
+    """one trim / crop case over the edge-value families: listed = anchors of the dtype + foreign entries +
+    aliases of decoy cells; cells = listed anchors, decoys (near the listed values / cast images of the foreign
+    entries, different numbers), other values.  Which cells count is decided by the oracle from the stored numbers."""
+    dtype = rng.choice(ev.ALL_DTYPES)
+    isf = ev.is_float(dtype)
+    h, w = rng.choice(SHAPES)
+    default = fn == "trim" and rng.random() < 0.25
+    as_float = default or rng.random() < (0.65 if fn == "trim" else 0.5)
+    pool = ev.anchors(dtype)
+    if not as_float:
+        pool = [v for v in pool if float(v) == int(v) and abs(v) <= ev.EXACT_LIMIT]
+    else:
+        pool = [v for v in pool if abs(v) <= ev.EXACT_LIMIT or isf]
+    big = [v for v in pool if abs(v) >= 100000 or v != int(v) or 0 < abs(v) < 1]
+    family = rng.choice(["small", "big", "big", "limits", "mixed"])
+    if family == "small":
+        src = pool[:6]
+    elif family == "big" and big:
+        src = big
+    elif family == "limits":
+        lo, hi = ev.limits(dtype)
+        src = [v for v in pool if v in (lo, hi, hi - 1, lo + 1, 0)] or pool
+    else:
+        src = pool
+    base = [] if default else rng.sample(src, min(len(src), rng.randrange(1, 3)))
+    decoys = []
+    for c in base:
+        nb = ev.neighbours(c, dtype)
+        decoys += rng.sample(nb, min(len(nb), 3))
+    if isf and any(float(c) == 0 for c in base):
+        base_zero_twin = [-0.0]                      # the same number as a listed 0
+    else:
+        base_zero_twin = []
+    listed = list(base)
+    extra = []
+    if default:
+        extra = [math.nan]
+    else:
+        fo = ev.foreign(dtype, as_float)
+        if fo and rng.random() < 0.6:
+            extra += rng.sample(fo, min(len(fo), rng.randrange(1, 3)))
+        if isf and as_float and rng.random() < 0.3:
+            extra.append(rng.choice([math.nan, math.inf, -math.inf]))
+        others0 = [v for v in pool[:8] if not any(ev.same_number(v, b) for b in base)]
+        if others0 and rng.random() < 0.6:           # an entry that a cast would map onto an unlisted cell value
+            d = rng.choice(others0)
+            al = ev.aliases(d, dtype, as_float)
+            if al:
+                extra.append(rng.choice(al))
+                decoys.append(d)
+    for e in extra:                                  # where a narrowing cast would send the foreign entries
+        img = ev.cast_image(e, dtype)
+        if img is not None and ev.store(img, dtype) is not None:
+            decoys.append(img)
+    listed += extra
+    if not as_float:
+        listed = [int(v) for v in listed]
+    listed = _uniq(listed)
+    rng.shuffle(listed)
+    listed = listed[:4]
+    lex = {ev.exact(v) for v in listed}
+    nan_listed = "nan" in lex
+
+    def is_listed(v):
+        k = ev.exact(v)
+        return (nan_listed and fn == "trim") if k == "nan" else k in lex
+    others = rng.sample(pool, min(len(pool), 3)) + ([math.nan, math.inf, -math.inf, -0.0] if isf else [])
+    cells_listed = [v for v in _uniq(base + base_zero_twin + ([math.nan] if isf and nan_listed else [])
+                                     + ([math.inf] if isf and "inf" in lex else [])
+                                     + ([-math.inf] if isf and "-inf" in lex else [])) if is_listed(v)]
+    decoys = [v for v in _uniq(decoys) if not is_listed(v)]
+    others = [v for v in _uniq(others) if not is_listed(v)]
+    unlisted = decoys * 3 + others
+    mode = rng.choice(["box", "box", "box", "frame", "frame", "none", "all", "random"])
+    if fn == "trim":
+        hit, miss = unlisted, cells_listed
+        if mode == "frame" and decoys and others:
+            grid, touched = gen_grid(rng, h, w, others, decoys, "box")      # decoys are kept cells too
+            touched = "frame"
+        else:
+            mode = "box" if mode == "frame" else mode
+            if not miss and mode in ("box", "none"):
+                mode = "all"
+            if not hit:
+                mode = "none"
+            grid, touched = gen_grid(rng, h, w, hit or miss, miss or hit, mode)
+    else:
+        hit, miss = cells_listed, unlisted
+        mode = "box" if mode == "frame" else mode
+        if not hit and mode in ("box", "all"):
+            mode = "none"
+        if not miss:
+            mode = "all"
+        grid, touched = gen_grid(rng, h, w, hit or miss, miss or hit, mode)
+    grid = [[ev.vtok(ev.store(v, dtype)) for v in row] for row in grid]
+    if default:
+        ex_form, ex_num = "default", "float"
+    else:
+        ex_num = "float" if as_float else "int"
+        # every (dtype, layout, list type, tuple length) is one numba compilation (~0.5 s): the quick tier keeps
+        # tuples (short ones) and Fortran order to three dtypes, the thorough tier takes them everywhere
+        few = dtype in ("float64", "int64", "uint8")
+        ex_form = "tuple" if (rng.random() < 0.3 and (len(listed) <= 2 and few if quick_sigs else True)) else "list"
+    layout = rng.choice(["C", "C", "C", "F"]) if (dtype in ("float64", "uint8") or not quick_sigs) else "C"
+    case = dict(fn=fn, dtype=dtype, layout=layout, data=grid, ex=[ev.vtok(v) for v in listed], ex_form=ex_form,
+                ex_num=ex_num, coords=rng.choice(["desc", "frac", "plain"]), name=rng.choice([None, None, "e2"]))
+    if fn == "crop":
+        vdtype = rng.choice(["float64", "float32", "int64", "uint8", "int16"])
+        vpool = ["0", "1", "5", "9", "100"] + (["nan", "-2"] if vdtype.startswith("float") else [])
+        case.update(values=[[rng.choice(vpool) for _ in range(w)] for _ in range(h)], vdtype=vdtype, vshape_differs=False)
+    return case, dict(mode=mode, touched=touched, family=("default" if default else family))
+
+
 def exhaustive(max_cells_shape):
     """every raster over {nan,0,1} of the given shapes x every exclusion set over {nan,0}"""
     for (h, w) in max_cells_shape:
@@ -343,7 +480,10 @@ def declare(r):
     import common
     r.extra["repo_under_test"] = common.REPO
     r.assumptions[:] = [
-        "hand model (Model/Trim.lean) tied to zonal._trim/_crop/trim/crop by the correspondence run only",
+        "model (Model/Trim.lean) tied to zonal._trim/_crop/trim/crop by the generated shapes of Gen/TrimFacts.lean (match "
+        "predicates, scan directions / ranges, early return, wrapper casts and slice; harness/facts_trim.py) and by the "
+        "correspondence run",
+        "cell values and list entries stay within 2^53 (numba compares int64 with float64, and uint64 with int64, in float64)",
         "the model follows the code as repaired by fixes/D5-trim-nan-aware-exclusion.patch and "
         "fixes/D16-trim-crop-empty-window.patch",
         "exclusion / id lists are homogeneous (all ints or all floats) and non-empty: numba rejects the others",
@@ -360,7 +500,11 @@ def run(r, n_override=None):
               "{0,1,2,3,nan,+-inf}; kept/selected cells placed in a target box (touching every subset of the raster "
               "borders), or none, or all, or random; exclusion list/tuple/default, int or float, with and without NaN; "
               "crop values raster same shape (88%) or different; layouts C/F; plus every raster over {nan,0,1} up to "
-              "2x3 (thorough 3x3) x 6 exclusion sets; non-trivial = distinct case whose raster is not constant")
+              "2x3 (thorough 3x3) x 6 exclusion sets; plus the edge stream: every raster dtype f4/f8/i1..u8, listed = anchors "
+              "of the dtype (ids >= 1e5, limits, 2^53, fractions) + foreign entries (nan, +-inf, negative, out of range, "
+              "fractional) + aliases a cast would wrap onto a cell value, decoy cells next to the listed values "
+              "(nextafter, rel 1e-5..1e-9, abs 1e-8..1e-12, +-1), modes box/frame/none/all/random; "
+              "non-trivial = distinct case whose raster is not constant")
     reqs, pend = [], []
     for body in r.corpus():
         case = body["case"]
@@ -383,6 +527,13 @@ def run(r, n_override=None):
     for k in range(n_rand):
         case, info = gen_trim(r.rng) if k % 2 == 0 else gen_crop(r.rng)
         check_one(r, case, reqs, pend, [f"mode:{info['mode']}", f"touch:{info['touched']}"])
+        if len(reqs) >= 5000:
+            flush(r, reqs, pend)
+    n_edge = {"quick": 3000, "thorough": 40000}[r.tier] if n_override is None else n_override
+    for k in range(n_edge):
+        case, info = gen_edge(r.rng, "trim" if k % 2 == 0 else "crop", quick_sigs=(r.tier == "quick"))
+        check_one(r, case, reqs, pend, ["edge", f"edge-mode:{info['mode']}", f"edge-family:{info['family']}",
+                                        f"edge-touch:{info['touched']}"])
         if len(reqs) >= 5000:
             flush(r, reqs, pend)
     flush(r, reqs, pend)
